@@ -71,9 +71,25 @@ func (c *Ctx) runPartition(rule string, pkgs []*packages.Package, fileOK func(fn
 				}
 				return v
 			}
+			lenArg := func(v ssa.Value) ssa.Value {
+				if call, ok := v.(*ssa.Call); ok {
+					if bi, isB := call.Call.Value.(*ssa.Builtin); isB && bi.Name() == "len" && len(call.Call.Args) == 1 {
+						return call.Call.Args[0]
+					}
+				}
+				return nil
+			}
 			same := func(a, b ssa.Value) bool {
 				a, b = resolve(a), resolve(b)
-				return a == b || equivValue(a, b, 0)
+				if a == b || equivValue(a, b, 0) {
+					return true
+				}
+				// len(x) in a closure and len(x) in the enclosing function
+				if la, lb := lenArg(a), lenArg(b); la != nil && lb != nil {
+					la, lb = resolve(la), resolve(lb)
+					return la == lb || equivValue(la, lb, 0)
+				}
+				return false
 			}
 			type quo struct {
 				ins  *ssa.BinOp
@@ -136,8 +152,43 @@ func (c *Ctx) runPartition(rule string, pkgs []*packages.Package, fileOK func(fn
 						}
 					}
 				}
+				transposed := false
+				if start == nil {
+					// the transposed split: chunk SIZE = total / count, chunk k
+					// covers [k*size, (k+1)*size)
+					for _, m := range muls {
+						if same(m.X, q.ins) || same(m.Y, q.ins) {
+							start, transposed = m, true
+						}
+					}
+				}
 				if start == nil {
 					continue
+				}
+				tailHandled := false
+				if transposed {
+					// the last chunk may be extended to the total explicitly
+					for _, fn := range fns {
+						for _, b := range fn.Blocks {
+							for _, ins := range b.Instrs {
+								switch x := ins.(type) {
+								case *ssa.BinOp:
+									switch x.Op {
+									case token.LSS, token.LEQ, token.GTR, token.GEQ:
+										if same(x.X, q.t) || same(x.Y, q.t) {
+											tailHandled = true // some bound is compared with the total
+										}
+									}
+								case *ssa.Phi:
+									for _, e := range x.Edges {
+										if same(e, q.t) {
+											tailHandled = true // `end = total` on some path
+										}
+									}
+								}
+							}
+						}
+					}
 				}
 				n++
 				c.analysed(qname(top))
@@ -164,10 +215,14 @@ func (c *Ctx) runPartition(rule string, pkgs []*packages.Package, fileOK func(fn
 					}
 				}
 				switch {
+				case tailHandled:
+					c.ok(rule, key, q.ins.Pos(), "a chunk bound is compared with or set to the total: the tail is covered")
 				case ceil:
 					c.ok(rule, key, q.ins.Pos(), "the number of chunks is rounded up")
 				case handled:
 					c.ok(rule, key, q.ins.Pos(), "the remainder of the division is used")
+				case transposed:
+					c.bad(rule, key, q.ins.Pos(), "the chunk size is total/count rounded DOWN and chunk k covers k*size up to (k+1)*size: the last total%count items belong to no chunk (no remainder, no comparison with the total, no rounding up)")
 				default:
 					c.bad(rule, key, q.ins.Pos(), "the number of chunks is total/size rounded DOWN while chunk k starts at k*size: the last total%size items belong to no chunk")
 				}
